@@ -246,6 +246,28 @@ pub fn main() {
     let reader = open_input(&arg_or("--input", "-"));
     let passthrough = vcommon::arg("--passthrough");
 
+    // a non-empty initial state: the node starts on a storage that already holds tombstones (stamp <<0, 0, first node>>)
+    // and builds its set from it, exactly as a restarted node does
+    let init_tombs = arg_list_u64("--init-tombs", "");
+    let init_node = arg_or("--init-node", "1").parse::<u64>().unwrap();
+    let init_state: (Set2, Snapshot) = if init_tombs.is_empty() {
+        (Set2::default(), vec![])
+    } else {
+        let r = tokio::runtime::Builder::new_current_thread().enable_all().start_paused(true).build().unwrap();
+        r.block_on(async {
+            let clock = Clock::new(9);
+            let ts = scale.ts(&json!([0, 0, init_node])).unwrap();
+            let snap: Snapshot = init_tombs.iter().map(|k| (*k, ts, true)).collect();
+            let inner = Arc::new(MemStore::default());
+            populate(&inner, "init", &snap).await;
+            let group = KeyspaceGroup::new(inner.clone(), clock).await;
+            tokio::time::sleep(Duration::from_millis(1)).await;
+            group.load_states_from_storage().await.expect("load initial state");
+            let actor = group.get_or_create_keyspace("init").await;
+            (decode_set(&actor.send(Serialize).await.expect("serialize")), snap)
+        })
+    };
+
     let mut sum = Summary::default();
     let mut states: HashMap<String, (Set2, Snapshot)> = HashMap::new();
     let mut parents: HashMap<String, (String, Value)> = HashMap::new();
@@ -264,7 +286,7 @@ pub fn main() {
         if tag == "FROM" {
             let key = e["from"].to_string();
             if states.is_empty() {
-                states.insert(key.clone(), (Set2::default(), vec![]));
+                states.insert(key.clone(), init_state.clone());
             }
             cur = states.get(&key).cloned();
             if cur.is_none() {
